@@ -43,7 +43,7 @@ variable {K : Type} [Field K] [LinearOrder K] [IsStrictOrderedRing K]
     No hypothesis on `g`, `a_in`, `b_in`, `Δ` at all (for `a_in ≤ 0 ≤ b_in` the box contains the centre). -/
 theorem trsbox_linear_box_ball {sqrt : K → K} (hs : SqrtSpec sqrt) {zt : K} (hzt : 0 < zt) (n : Nat)
     (g aIn bIn : Nat → K) (Δ : K) :
-    let x := trsboxLinear (exactNum sqrt zt) n g aIn bIn Δ
+    let x := vget (trsboxLinear (exactNum sqrt zt) n g aIn bIn Δ)
     (∀ k < n, minv (aIn k) (-zt) ≤ x k ∧ x k ≤ maxv (bIn k) zt) ∧ sumTo n (fun i => x i * x i) ≤ Δ * Δ := by
   have h := trsboxLinear_good hs hzt n g aIn bIn Δ
   exact ⟨h.1, h.2.1⟩
@@ -52,7 +52,7 @@ theorem trsbox_linear_box_ball {sqrt : K → K} (hs : SqrtSpec sqrt) {zt : K} (h
     hence `g·x ≤ 0 = g·0`. -/
 theorem trsbox_linear_descent {sqrt : K → K} (hs : SqrtSpec sqrt) {zt : K} (hzt : 0 < zt) (n : Nat)
     (g aIn bIn : Nat → K) (Δ : K) :
-    let x := trsboxLinear (exactNum sqrt zt) n g aIn bIn Δ
+    let x := vget (trsboxLinear (exactNum sqrt zt) n g aIn bIn Δ)
     (∀ k < n, g k * x k ≤ 0) ∧ sumTo n (fun i => g i * x i) ≤ 0 := by
   have h := trsboxLinear_good hs hzt n g aIn bIn Δ
   exact ⟨h.2.2, dot_nonpos_of_good h⟩
@@ -60,7 +60,7 @@ theorem trsbox_linear_descent {sqrt : K → K} (hs : SqrtSpec sqrt) {zt : K} (hz
 /-- **the geometry step stays in the (widened) box and the ball** (exact), `s = x_returned - xbase`. -/
 theorem trsbox_geometry_box_ball {sqrt : K → K} (hs : SqrtSpec sqrt) {zt : K} (hzt : 0 < zt) (n : Nat)
     (xbase : Nat → K) (c : K) (g lower upper : Nat → K) (Δ : K) :
-    let s := geomStep (exactNum sqrt zt) n xbase c g lower upper Δ
+    let s := vget (geomStep (exactNum sqrt zt) n xbase c g lower upper Δ)
     (∀ k < n, minv (lower k - xbase k) (-zt) ≤ s k ∧ s k ≤ maxv (upper k - xbase k) zt) ∧
     sumTo n (fun i => s i * s i) ≤ Δ * Δ :=
   geomStep_box_ball hs hzt n xbase c g lower upper Δ
@@ -70,10 +70,10 @@ theorem trsbox_geometry_box_ball {sqrt : K → K} (hs : SqrtSpec sqrt) {zt : K} 
 theorem trsbox_geometry_abs_box {sqrt : K → K} (hs : SqrtSpec sqrt) {zt : K} (hzt : 0 < zt) (n : Nat)
     (xbase : Nat → K) (c : K) (g lower upper : Nat → K) (Δ : K) (k : Nat) (hk : k < n)
     (hl : lower k ≤ xbase k) (hu : xbase k ≤ upper k) :
-    lower k - zt ≤ trsboxGeometry (exactNum sqrt zt) n xbase c g lower upper Δ k ∧
-    trsboxGeometry (exactNum sqrt zt) n xbase c g lower upper Δ k ≤ upper k + zt := by
+    lower k - zt ≤ vget (trsboxGeometry (exactNum sqrt zt) n xbase c g lower upper Δ) k ∧
+    vget (trsboxGeometry (exactNum sqrt zt) n xbase c g lower upper Δ) k ≤ upper k + zt := by
   have h := (geomStep_box_ball hs hzt n xbase c g lower upper Δ).1 k hk
-  unfold trsboxGeometry
+  rw [vget_trsboxGeometry _ n xbase c g lower upper Δ k hk]
   constructor
   · have h1 : minv (lower k - xbase k) (-zt) ≥ lower k - xbase k - zt := by
       unfold minv; split_ifs <;> linarith
@@ -85,7 +85,7 @@ theorem trsbox_geometry_abs_box {sqrt : K → K} (hs : SqrtSpec sqrt) {zt : K} (
 /-- **never worse than not moving** (exact): `|c + g·s| ≥ |c|` for the step chosen at lines 714-717. -/
 theorem trsbox_geometry_not_worse {sqrt : K → K} (hs : SqrtSpec sqrt) {zt : K} (hzt : 0 < zt) (n : Nat)
     (xbase : Nat → K) (c : K) (g lower upper : Nat → K) (Δ : K) :
-    |c| ≤ |c + sumTo n fun i => g i * geomStep (exactNum sqrt zt) n xbase c g lower upper Δ i| :=
+    |c| ≤ |c + sumTo n fun i => g i * vget (geomStep (exactNum sqrt zt) n xbase c g lower upper Δ) i| :=
   geomStep_not_worse hs hzt n xbase c g lower upper Δ
 
 /-- non-vacuity of `SqrtSpec`, and the statements over the reals with `Real.sqrt` and ZT = 1e-14. -/
@@ -93,7 +93,7 @@ theorem sqrtSpec_real : SqrtSpec Real.sqrt := fun x hx => ⟨Real.sqrt_nonneg x,
 
 theorem trsbox_geometry_real (n : Nat) (xbase : Nat → ℝ) (c : ℝ) (g lower upper : Nat → ℝ) (Δ : ℝ) :
     let zt : ℝ := 1 / 10 ^ 14
-    let s := geomStep (exactNum Real.sqrt zt) n xbase c g lower upper Δ
+    let s := vget (geomStep (exactNum Real.sqrt zt) n xbase c g lower upper Δ)
     (∀ k < n, minv (lower k - xbase k) (-zt) ≤ s k ∧ s k ≤ maxv (upper k - xbase k) zt) ∧
     sumTo n (fun i => s i * s i) ≤ Δ * Δ ∧ |c| ≤ |c + sumTo n fun i => g i * s i| := by
   intro zt s
